@@ -117,6 +117,7 @@ class LoopRig(srvkit.Rig):
         config.COMMTIMEOUT = commtimeout          # restored by Rig.close()
         config.MAX_MESSAGE_SIZE = 1 << 20
         self.loop_alive = True
+        self.unsettled = False
         self.loop_exc = None                      # (class name, innermost transport function, text)
         self.iterations = 0
         srv = self.daemon.transportServer
@@ -227,6 +228,8 @@ class LoopRig(srvkit.Rig):
         """wait until every finished job's worker has told the pool (Worker.run: notify_done after the job)"""
         if self.servertype != "thread":
             return True
+        if self.unsettled:
+            return False
         pool = self.daemon.transportServer.pool
         t0 = time.time()
         while True:
@@ -234,6 +237,7 @@ class LoopRig(srvkit.Rig):
             if len(pool.busy) == want:
                 return True
             if time.time() - t0 > SETTLE:
+                self.unsettled = True           # a worker that finished its job never told the pool
                 return False
             time.sleep(0.0003)
 
